@@ -201,9 +201,7 @@ def parse_call(p, op):
     rt = p.type()
     fnty = None
     if isinstance(rt, Fn): fnty = rt; rt = rt.r
-    elif isinstance(rt, Ptr) and isinstance(rt.t, Fn) and p.peek()[0] in ('local', 'glob') and p.peek(1)[1] == '(':
-        # "call void (i32, ...)* @f(...)" older style -- treat
-        fnty = rt.t; rt = fnty.r
+    # (LLVM 14 never writes the callee type as a pointer: 'void (i8*)* @f(..)' is a call RETURNING a function pointer)
     callee = value(p, None)
     p.expect('(')
     args = []
@@ -299,7 +297,7 @@ def parse_instr(p):
         p.next(); skip_meta(p)
         ins = I('switch', val=v, default=d, cases=cases)
     elif op == 'ret':
-        if p.at('void'): p.next(); ins = I('ret', val=None)
+        if p.at('void') and p.peek(1)[1] not in ('(', '*'): p.next(); ins = I('ret', val=None)
         else: ins = I('ret', val=tvalue(p))
         skip_meta(p)
     elif op == 'unreachable':
